@@ -11,11 +11,12 @@ class Undecided(Exception):
 # ---------------------------------------------------------------------------------------
 # types
 class T:
-    __slots__ = ('kind', 'args')
+    __slots__ = ('kind', 'args', 'default')
 
-    def __init__(self, kind, *args):
+    def __init__(self, kind, *args, default=None):
         self.kind = kind
         self.args = args
+        self.default = default      # Map only: collections.defaultdict semantics (d[k] on a missing key inserts the empty value)
 
     def __eq__(self, other):
         return isinstance(other, T) and self.kind == other.kind and self.args == other.args
@@ -51,6 +52,8 @@ def parse_type(s):
             else:
                 cur += ch
         parts.append(cur)
+        if head.strip() == 'DMap':
+            return T('Map', *[parse_type(p) for p in parts], default=True)
         return T(head.strip(), *[parse_type(p) for p in parts])
     if ':' in s:
         head, name = s.split(':', 1)
